@@ -393,35 +393,61 @@ def verdict_of(case, name, state):
     return "+".join(("base" if v == "" else v) + ("(hidden)" if h else "") for v, h in state)
 
 
-def classify(case, name, lstate, wstate):
-    m = matches_of(case, name)
-    nodes_in_order = []
-    for i, k in m:
-        if i not in nodes_in_order:
-            nodes_in_order.append(i)
+STRENGTH = {"exact": 0, "cxx-exact": 0, "glob-nostar": 1, "glob": 2, "cxx-glob": 2, "star": 3}
 
-    def rel(state):
-        if not state:
-            return "local"
-        out = []
-        for v, h in state:
-            if v == "":
-                out.append("base")
-            elif v == "*local*":
-                out.append("versym0")
-            else:
-                idx = [i for i, n in enumerate(case["nodes"]) if n["name"] == v]
-                if idx and idx[0] in nodes_in_order:
-                    out.append(f"node#{nodes_in_order.index(idx[0])}")
-                else:
-                    out.append("other-node")
-            if h:
-                out[-1] += "(hidden)"
-        return "+".join(out)
-    pats = ",".join(f"{k}@{nodes_in_order.index(i)}" for i, k in m) or "none"
-    sv = ":symver" if any(s["base"] == name or s["impl"] == name for s in case["symvers"]) else ""
+
+def pick(case, name, state):
+    """What a linker's result for `name` corresponds to in the script: (node position | None, label).
+    label: 'explicit-symver' | 'base' | 'versym0' | '<g|l>:<pattern kind>' | 'unexplained'."""
+    m = matches_of(case, name)
+    if any(s["base"] == name for s in case["symvers"]):
+        if state:
+            return None, "explicit-symver" + ("(hidden)" if all(h for _, h in state) else "")
+    if not state:
+        cands = [(STRENGTH[k.split(":")[1]], -i, i, k) for i, k in m if k.startswith("l:")]
+        if not cands:
+            return None, "local-unexplained"
+        _, _, i, k = min(cands)
+        return i, k
+    v, h = state[0]
+    if v == "":
+        return None, "base" + ("(hidden)" if h else "")
+    if v == "*local*":
+        return None, "versym0"
+    idx = [i for i, n in enumerate(case["nodes"]) if n["name"] == v]
+    if not idx:
+        return None, "unknown-version"
+    cands = [(STRENGTH[k.split(":")[1]], k) for i, k in m if i == idx[0] and k.startswith("g:")]
+    if not cands:
+        return idx[0], "node-unexplained"
+    return idx[0], min(cands)[1] + ("(hidden)" if h else "")
+
+
+def classify(case, name, lstate, wstate):
+    """Narrow signature: which script pattern each linker's answer corresponds to, and their order.
+    Pattern kinds are kept apart (glob without '*' / glob with '*') only when both answers come from
+    the same kind of section; a global-versus-local disagreement is reported by wildcard class."""
     anon = ":anonymous" if case["anonymous"] else ""
-    return f"version:ld={rel(lstate)}:wild={rel(wstate)}:matches=[{pats}]{sv}{anon}"
+    if any(s["base"] == name for s in case["symvers"]):
+        # a symbol that carries an explicit version from .symver
+        def st(x):
+            return "local" if not x else "exported"
+        if st(lstate) != st(wstate):
+            return f"symver-symbol:ld={st(lstate)}:wild={st(wstate)}"
+        return "symver-symbol:versions-differ"
+    li, lk = pick(case, name, lstate)
+    wi, wk = pick(case, name, wstate)
+    if li is None or wi is None:
+        order = ""
+    else:
+        order = ":ld-node-" + ("earlier" if li < wi else "later" if li > wi else "same")
+    if lk[:2] in ("g:", "l:") and wk[:2] in ("g:", "l:") and lk[:2] != wk[:2]:
+        def coarse(k):
+            kind = k[2:].replace("(hidden)", "")
+            return k[:2] + {"exact": "exact", "cxx-exact": "exact", "star": "star"}.get(kind, "wildcard")
+        lk, wk = coarse(lk), coarse(wk)
+    undefined = ":undefined-symbol" if name in case["depsyms"] else ""
+    return f"version:ld={lk}:wild={wk}{order}{anon}{undefined}"
 
 
 # ---- case runner -----------------------------------------------------------------------------------
@@ -542,32 +568,35 @@ def run_case(ctx, cid, case):
         ctx.violation(sig, f"{desc} [layout {layout}]", case=cid, files=files)
     # (a) differential
     wmap = version_map(wout, own)
-    diffs = [nm for nm in sorted(own) if lmap.get(nm) != wmap.get(nm)]
+    cmp_l, cmp_w, cmp_text = lmap, wmap, text
+    if layout != "plain" and lmap != wmap:
+        # attribute to the layout when the same script in plain layout is treated differently by wild
+        # but identically by GNU ld; semantic differences are then judged on the plain rendering
+        ps = write(os.path.join(d, "plain.map"), render(case, "plain"))
+        files["plain.map"] = ps
+        pres, _ = link(ctx, "wild", d, obj, ps, os.path.join(d, "libwild-plain.so"), dep)
+        lp, _ = link(ctx, "ld", d, obj, ps, os.path.join(d, "libld-plain.so"), dep)
+        if pres.ok and lp.ok:
+            pm = version_map(os.path.join(d, "libwild-plain.so"), own)
+            lpm = version_map(os.path.join(d, "libld-plain.so"), own)
+            if lpm == lmap and pm != wmap:
+                bad = True
+                nd = [nm for nm in sorted(own) if pm.get(nm) != wmap.get(nm)]
+                ctx.violation(f"syntax:{layout}:accepted-but-parsed-differently",
+                              f"wild accepts the script in layout '{layout}' but treats {len(nd)} symbol(s) differently from the same "
+                              f"script in plain layout (e.g. {nd[0]}: {wmap.get(nd[0]) or 'local'} vs {pm.get(nd[0]) or 'local'}); GNU ld "
+                              f"treats both layouts alike; script:\n{text}", case=cid, files=files, info={"script": text})
+                cmp_l, cmp_w, cmp_text = lpm, pm, render(case, "plain")
+    diffs = [nm for nm in sorted(own) if cmp_l.get(nm) != cmp_w.get(nm)]
     if diffs:
         bad = True
-        plain_ok = None
-        if layout != "plain":
-            # attribute to the layout: same script, plain rendering
-            ps = write(os.path.join(d, "plain.map"), render(case, "plain"))
-            pres, _ = link(ctx, "wild", d, obj, ps, os.path.join(d, "libwild-plain.so"), dep)
-            lp, _ = link(ctx, "ld", d, obj, ps, os.path.join(d, "libld-plain.so"), dep)
-            if pres.ok and lp.ok:
-                pm = version_map(os.path.join(d, "libwild-plain.so"), own)
-                lpm = version_map(os.path.join(d, "libld-plain.so"), own)
-                plain_ok = pm == lpm and lpm == lmap
-            files["plain.map"] = ps
-        if plain_ok:
-            ctx.violation(f"syntax:{layout}:accepted-but-parsed-differently",
-                          f"with layout '{layout}' wild accepts the script but assigns {len(diffs)} symbol(s) differently from GNU ld "
-                          f"(e.g. {diffs[0]}: ld {lmap.get(diffs[0])}, wild {wmap.get(diffs[0])}); the same script in plain layout agrees",
-                          case=cid, files=files, info={"script": text})
-        else:
-            sigs = {}
-            for nm in diffs:
-                sigs.setdefault(classify(case, nm, lmap.get(nm), wmap.get(nm)), nm)
-            for sig, nm in sorted(sigs.items()):
-                ctx.violation(sig, f"{nm}: GNU ld gives {lmap.get(nm) or 'local'}, wild gives {wmap.get(nm) or 'local'}; script:\n{text}",
-                              case=cid, files=files, info={"script": text, "symbol": nm, "ld": lmap.get(nm), "wild": wmap.get(nm)})
+        sigs = {}
+        for nm in diffs:
+            sigs.setdefault(classify(case, nm, cmp_l.get(nm), cmp_w.get(nm)), nm)
+        for sig, nm in sorted(sigs.items()):
+            ctx.violation(sig, f"{nm}: GNU ld gives {cmp_l.get(nm) or 'local'}, wild gives {cmp_w.get(nm) or 'local'}; matching patterns "
+                          f"{matches_of(case, nm)}; script:\n{cmp_text}", case=cid, files=files,
+                          info={"script": cmp_text, "symbol": nm, "ld": cmp_l.get(nm), "wild": cmp_w.get(nm)})
     # (c) consumer
     wc = run([dyngen.dlsym_driver(ctx), wout, lst], timeout=120, extra_env=env)
     wt = wc.outtext()
@@ -577,7 +606,7 @@ def run_case(ctx, cid, case):
         bad = True
         ctx.violation("consumer:" + ("loadfail" if "LOADFAIL" in wt else "crash"), f"dlopen/dlvsym on wild's output: {wt.strip()[:300]} {wc.errtext()[:100]}",
                       case=cid, files=files)
-    elif " fail=0" not in wt and not diffs:
+    elif " fail=0" not in wt and lmap == wmap:
         bad = True
         fl = [l for l in wt.splitlines() if l.startswith("FAIL")]
         ctx.violation("consumer:" + fl[0].split()[1] + ":tables-agree-with-ld", f"dlvsym disagrees although the tables match GNU ld's: {'; '.join(fl[:3])}",
@@ -603,6 +632,8 @@ def inject(path, mode):
     """Self-validation: corrupt wild's output before the oracles read it."""
     e = Elf(path)
     data = bytearray(e.data)
+    if e.section_by_type(0x6fffffff) is None:
+        return
     if mode == "versym":
         s = e.section_by_type(0x6fffffff)
         syms = e.dynsym()
